@@ -467,7 +467,7 @@ Definition c10_ok (t : topology) (p : prov) (pp : pparams) (pf : pfault) (ka kc 
 Inductive case :=
 | CRet (t : topology) (hosts : list (N * (N * list N))) (now now' : N) (macs : mactab)
        (p : prov) (pp : pparams) (pf : pfault) (fa : fault_at)
-       (tc flow next : N) (qoff : nat)
+       (tc flow next qnext : N) (qoff : nat)
        (ka kc : nat) (how : arrival) (trq : option (N * N))
        (expect_valid : bool)
        (* observations on the real routers *)
@@ -490,7 +490,7 @@ Record mobs := mkMobs {
 
 Definition model_q (macq : N -> N -> N -> N -> N -> N -> option (list N))
            (t : topology) (hosts : list (N * (N * list N))) (now now' : N)
-           (p : prov) (pp : pparams) (pf : pfault) (fa : fault_at) (tc flow next : N) (qoff : nat)
+           (p : prov) (pp : pparams) (pf : pfault) (fa : fault_at) (tc flow next qnext : N) (qoff : nat)
            (srt : N) (raw : bytes) : mobs :=
   let sent := apply_pfault pf (render p pp 0 false) in
   let w := run_x macq t fa now (fuel_for sent) (mkLoc (p_src_ia sent) srt InInt) sent in
@@ -501,7 +501,7 @@ Definition model_q (macq : N -> N -> N -> N -> N -> N -> option (list N))
     | Some a =>
       let c := with_host (cfg_x fa a (l_rtr l)) (host_of hosts (l_ia l) (l_rtr l)) in
       let rep := answer c (l_ing l) req eg out tc flow next raw in
-      mkMobs fwd (Some (l, inp, SlowPath req eg out)) rep (go_back macq t now' l rep next qoff)
+      mkMobs fwd (Some (l, inp, SlowPath req eg out)) rep (go_back macq t now' l rep qnext qoff)
     | None => mkMobs fwd None RouterScmp.SDrop BNone
     end
   | XFin _ => mkMobs fwd None RouterScmp.SDrop BNone
@@ -531,9 +531,9 @@ Definition last_pkt (w : list (tstep * pkt) * xfinal) : option pkt :=
 
 Definition check (c : case) : N :=
   match c with
-  | CRet t hosts now now' macs p pp pf fa tc flow next qoff ka kc how trq ev
+  | CRet t hosts now now' macs p pp pf fa tc flow next qnext qoff ka kc how trq ev
          sent srt fwd oloc oin ores raw oreply oback =>
-    let m := model_ret t hosts now now' macs p pp pf fa tc flow next qoff srt raw in
+    let m := model_ret t hosts now now' macs p pp pf fa tc flow next qnext qoff srt raw in
     let valid := valid_ret t now now' macs p pp ka kc how in
     (* a traceroute request with the flag of an interface of the path is in scope wherever it
        was answered (the oracle demands that it is the owner of the interface) *)
@@ -551,7 +551,7 @@ Definition check (c : case) : N :=
        (* the claimed position is where the real walk stopped, with the packet the path gives there *)
        (negb valid ||
         loc_eqb (pos_loc t p ka how) oloc && pkt_eqb (apply_pfault pf (pos_pkt p pp ka how)) oin))
-      (negb (valid && scope) || c10_ok t p pp pf ka kc how trq next qoff oloc oreply oback)
+      (negb (valid && scope) || c10_ok t p pp pf ka kc how trq qnext qoff oloc oreply oback)
   | CPass t now macs p pp pf ev sent srt fwd last =>
     let macq := kmacq macs in
     let s := apply_pfault pf (render p pp 0 false) in
@@ -573,9 +573,9 @@ Definition check (c : case) : N :=
 
 Definition diag (c : case) : mobs * bool * bool :=
   match c with
-  | CRet t hosts now now' macs p pp pf fa tc flow next qoff ka kc how trq ev
+  | CRet t hosts now now' macs p pp pf fa tc flow next qnext qoff ka kc how trq ev
          sent srt fwd oloc oin ores raw oreply oback =>
-    let m := model_ret t hosts now now' macs p pp pf fa tc flow next qoff srt raw in
+    let m := model_ret t hosts now now' macs p pp pf fa tc flow next qnext qoff srt raw in
     (mkMobs (m_fwd m) (m_stop m)
             (match m_reply m with
              | RouterScmp.SReply r =>
